@@ -991,6 +991,9 @@ def simp_cmp_int(expr_simp, expr):
         # ({X, 0} == int) => X == int[:]
         src = expr.args[0].args[0]
         int_val = int(expr.args[1])
+        if int_val >> src.size:
+            # High bits of {X, 0} are null: cannot be equal
+            return ExprInt(0, expr.size)
         new_int = ExprInt(int_val, src.size)
         expr = expr_simp(
             ExprOp(TOK_EQUAL, src, new_int)
